@@ -148,10 +148,17 @@ def scale10 (x : Rat) (e : Int) : Rat :=
 
 def optDigits (s : Str) : Option Nat := if s.isEmpty then some 0 else digitPart s
 
+/-- is `m · 10^E` (m ≠ 0) outside [1e-300, 1e300)?  Integer arithmetic only; `|E| ≤ 400` is checked first so that no
+    astronomically large power is ever computed. -/
+def outOfRange (m : Nat) (E : Int) : Bool :=
+  if E > 400 || E < -400 then true
+  else if E ≥ 0 then decide (m * 10 ^ E.toNat ≥ 10 ^ 300)
+  else decide (m ≥ 10 ^ (300 + (-E).toNat)) || decide (m * 10 ^ 300 < 10 ^ (-E).toNat)
+
 /-- `float(text)` for decimal literals `[sign] digits [. [digits]] [e [sign] digits]` / `[sign] . digits …`;
     the exact rational value of the text is returned.  Outside the model (`unmodelled`): non-ASCII characters,
-    `inf`/`nan` spellings, more than 15 mantissa digits, non-zero magnitudes outside [1e-6, 1e15) – there the
-    double rounding / `repr` of the real float would matter. -/
+    `inf`/`nan` spellings, more than 15 mantissa digits (double rounding could decide integrality), non-zero
+    magnitudes outside [1e-300, 1e300) (the real float under/overflows). -/
 def pyFloat (s : Str) : Except Err Rat :=
   let t := strip s
   if t.any (fun c => c.toNat ≥ 128) then .error .unmodelled else
@@ -175,11 +182,11 @@ def pyFloat (s : Str) : Except Err Rat :=
   | some i, some f, some e =>
     let nfrac := (fp.filter (· != '_')).length
     let m : Nat := i * 10 ^ nfrac + f
-    let q := scale10 (m : Rat) (e - nfrac)
     let ndig := (ip.filter (· != '_')).length + nfrac
     if ndig > 15 then .error .unmodelled
-    else if q != 0 && (q < 1 / 1000000 || q ≥ 1000000000000000) then .error .unmodelled
-    else .ok (if neg then -q else q)
+    else if m == 0 then .ok 0
+    else if outOfRange m (e - nfrac) then .error .unmodelled
+    else .ok (if neg then -(scale10 (m : Rat) (e - nfrac)) else scale10 (m : Rat) (e - nfrac))
   | _, _, _ => .error .badNumber
 
 /-! ### `_parse_multiplicity` -/
@@ -433,9 +440,9 @@ def mapExcept (f : Str → Except Err Reaction) : List Str → Except Err (List 
       | .error e => .error e
       | .ok rs => .ok (r :: rs)
 
-/-- the `rxns` list built by `ReactionSystem.from_string(s, substances)` (constructor checks of the system not modelled) -/
-def systemFromString (allowed : Allowed) (token : Str) (s : Str) : Except Err (List Reaction) :=
-  mapExcept (toReaction allowed token) (systemLines Printing.commentTokens s)
+/-- the `rxns` list built by `ReactionSystem.from_string(s, substances, comment_tokens=…)` (default: `Printing.commentTokens`); (constructor checks of the system not modelled) -/
+def systemFromString (commentTokens : List Str) (allowed : Allowed) (token : Str) (s : Str) : Except Err (List Reaction) :=
+  mapExcept (toReaction allowed token) (systemLines commentTokens s)
 
 def mapOption (f : Reaction → Option Str) : List Reaction → Option (List Str)
   | [] => some []
@@ -455,11 +462,15 @@ def printSystem (arrow : Str) (withParam withName : Bool) (name : Option Str) (r
 
 /-! ### Specification side: the documented written notation (not a model of any chempy code)
 
-A written reaction is two lists of terms.  A term is a species key with a coefficient `n ≥ 1` written in one of
-three ways (`X` when n = 1, `n X`, `n * X`), optionally wrapped as an inactive group `(n X)`.  -/
+A written reaction is two lists of terms.  A term is a species key with a coefficient written in one of four ways:
+omitted (coefficient 1), `n X`, `n * X` (integer `n ≥ 1`), or as a decimal `n.ddd X` (`n ≥ 1`, at least one
+fractional digit), optionally wrapped as an inactive group `(… X)`.  A line is `reactants token products` followed
+by any number of `;`-separated parts (the first one is the parameter text, the others keyword parts). -/
 
 inductive CoefForm
   | omit | plain | star
+  /-- decimal coefficient `n.frac` (frac: the fractional digits as written) -/
+  | dec (frac : Str)
   deriving DecidableEq, Repr
 
 structure Term where
@@ -472,21 +483,52 @@ structure Term where
 /-- decimal digits of a natural number (Python `str(int)`) -/
 def natStr (n : Nat) : Str := Nat.toDigits 10 n
 
+/-- exact value of the decimal text `n.frac`: the digits of `n` followed by `frac`, read as an integer, over `10^|frac|` -/
+def decValue (n : Nat) (frac : Str) : Rat :=
+  ((n * 10 ^ frac.length + (digitsVal frac 0).getD 0 : Nat) : Rat) / ((10 ^ frac.length : Nat) : Rat)
+
+def Term.isDec (t : Term) : Bool := match t.form with | .dec _ => true | _ => false
+
+/-- the number the coefficient text denotes -/
+def Term.value (t : Term) : Rat := match t.form with | .dec fr => decValue t.n fr | _ => (t.n : Rat)
+
+/-- … as Python holds it: `int` for the integer forms, `float` for a decimal -/
+def Term.coef (t : Term) : Coef := ⟨t.value, t.isDec⟩
+
 def Term.body (t : Term) : Str :=
   match t.form with
   | .omit => t.key
   | .plain => natStr t.n ++ ' ' :: t.key
   | .star => natStr t.n ++ ' ' :: '*' :: ' ' :: t.key
+  | .dec fr => natStr t.n ++ '.' :: fr ++ ' ' :: t.key
 
 def Term.text (t : Term) : Str := if t.inactive then '(' :: t.body ++ [')'] else t.body
 
 /-- one side: the terms joined by `" + "` -/
 def sideText (ts : List Term) : Str := joinStrs [' ', '+', ' '] (ts.map Term.text)
 
-/-- the written line `reactants token products` -/
+/-- the written stoichiometry `reactants token products` -/
 def writeLine (tok : Str) (reac prod : List Term) : Str := sideText reac ++ ' ' :: (tok ++ ' ' :: sideText prod)
 
-/-- what the written side denotes: total coefficient of key `k` among the active (`inact = false`) or inactive terms -/
+/-- the `;`-separated tail: `; part₁; part₂ …` (each part written as it is, including its blanks) -/
+def tailText : List Str → Str
+  | [] => []
+  | p :: ps => ';' :: p ++ tailText ps
+
+/-- the terms of one side that are written for key `k` as active (`inact = false`) / inactive terms -/
+def matching (inact : Bool) (k : Str) (ts : List Term) : List Term :=
+  ts.filter (fun t => t.inactive == inact && t.key == k)
+
+/-- what the written side denotes for key `k`: nothing when no such term is written, otherwise the sum of the written
+    coefficients (exact), held as a `float` iff one of them is written as a decimal -/
+def written (inact : Bool) (k : Str) (ts : List Term) : Option Coef :=
+  match matching inact k ts with
+  | [] => none
+  | ms => some ⟨ms.foldl (fun s t => s + t.value) 0, ms.any Term.isDec⟩
+
+def valD (c : Option Coef) : Rat := match c with | some c => c.val | none => 0
+
+/-- integer-only reading: total written integer coefficient (used for sides without decimals) -/
 def count (inact : Bool) (k : Str) : List Term → Nat
   | [] => 0
   | t :: ts => (if t.inactive = inact ∧ t.key = k then t.n else 0) + count inact k ts
@@ -505,22 +547,36 @@ def keyOK (tok k : Str) : Bool :=
   k != [] && !k.contains ' ' && !k.contains ';' && !isInfixB tok k && k != ['+']
     && !(k.head?.any isPySpace) && !(k.getLast?.any isPySpace)
 
-/-- admissible written term: admissible key, n ≥ 1, the coefficient is omitted only when it is 1; the key of an inactive
-    group has balanced parentheses; a key written without coefficient is not itself of the shape `( … )` closed at its end -/
+/-- admissible coefficient: `n ≥ 1`; omitted only when it is 1; a decimal has at least one fractional digit, only
+    digits, and at most 15 digits in all (beyond that the double rounding of the real `float()` is not modelled) -/
+def Term.coefOK (t : Term) : Bool :=
+  decide (1 ≤ t.n) &&
+  match t.form with
+  | .omit => t.n == 1
+  | .dec fr => fr != [] && fr.all Char.isDigit && decide ((natStr t.n).length + fr.length ≤ 15)
+  | _ => true
+
+/-- admissible written term: admissible key and coefficient; the key of an inactive group has balanced parentheses;
+    a key written without coefficient is not itself of the shape `( … )` closed at its end -/
 def Term.ok (tok : Str) (t : Term) : Bool :=
-  keyOK tok t.key && decide (1 ≤ t.n) && (t.form != .omit || t.n == 1)
+  keyOK tok t.key && t.coefOK
     && (if t.inactive then parenBal t.key 0 else (t.form != .omit || !isInactiveTerm t.key))
 
-/-- admissible arrow token: non-empty, none of its characters is white space, a digit, or one of `; ( ) * +` -/
+/-- admissible arrow token: non-empty, none of its characters is white space, a digit, or one of `; ( ) * + .` -/
 def tokOK (tok : Str) : Bool :=
-  tok != [] && tok.all (fun c => !isPySpace c && !c.isDigit && !([';', '(', ')', '*', '+'].contains c))
+  tok != [] && tok.all (fun c => !isPySpace c && !c.isDigit && !([';', '(', ')', '*', '+', '.'].contains c))
 
-/-- net stoichiometry of key `k` as written -/
-def netWritten (reac prod : List Term) (k : Str) : Int :=
-  (count false k prod : Int) + count true k prod - count false k reac - count true k reac
+/-- net stoichiometry of key `k` as written (products − reactants, active and inactive) -/
+def netWritten (reac prod : List Term) (k : Str) : Rat :=
+  valD (written false k prod) - valD (written false k reac) + valD (written true k prod) - valD (written true k reac)
 
 /-- the reaction as written has a net effect on some species -/
 def hasEffect (reac prod : List Term) : Bool :=
   (reac ++ prod).any (fun t => netWritten reac prod t.key != 0)
+
+/-- every total written coefficient is a whole number (what `check_all_integral` demands) -/
+def integralWritten (reac prod : List Term) : Bool :=
+  [reac, prod].all fun ts => ts.all fun t =>
+    [false, true].all fun i => match written i t.key ts with | some c => c.val.den == 1 | none => true
 
 end ChemModel.ReactionText
